@@ -382,3 +382,7 @@ if _os.path.exists(_cal):
     for _pid, _t in _json.load(open(_cal)).items():
         if _pid in PROPS:
             PROPS[_pid]["thresholds"]["quick"] = _t
+
+# inconclusive reasons that must stay rare: more than this many turns the run into INCONCLUSIVE (exit 2)
+PROPS["C16"]["max_inconclusive"] = {"call-stuck-without-deadlock-witness": 0}
+PROPS["C05"]["max_inconclusive"] = {"cli-run-stopped-by-watchdog": 0}
